@@ -46,9 +46,16 @@ fn chunk_case(t: &mut Tape, w: &Worker) -> CaseResult {
         _ => t.below(701),
     };
     let ff = t.below(41);
-    let words = indexed_words(n);
+    let mut words = indexed_words(n);
+    // a (corrupted) last word whose identifier byte is 0xFF, with so little padding behind it that the run of 0xFF
+    // stays below a word's length: it is a word and must be examined like any other
+    let last_id_ff = !fmt0 && n >= 1 && ff <= 8 && t.chance(1, 6);
+    if last_id_ff {
+        words[n - 1][9] = 0xFF;
+        words[n - 1][8] = 0x00;
+    }
     let payload = build_payload(&words, fmt0, ff);
-    let detail = |what: String| json!({"what": what, "format0": fmt0, "n_words": n, "trailing_ff": ff, "payload_len": payload.len(), "payload_head": crate::tape::hex(&payload[..payload.len().min(64)])});
+    let detail = |what: String| json!({"what": what, "format0": fmt0, "n_words": n, "trailing_ff": ff, "last_word_id_ff": last_id_ff, "payload_len": payload.len(), "payload_head": crate::tape::hex(&payload[..payload.len().min(64)])});
     let expect = ref_chunk(&payload, fmt0 && n > 0);
     let got = inproc::catch(std::panic::AssertUnwindSafe(|| preprocess_payload(&payload).map(|c| c.map(|x| x[..10].to_vec()).collect::<Vec<_>>())));
     let got = match got {
@@ -83,6 +90,9 @@ fn chunk_case(t: &mut Tape, w: &Worker) -> CaseResult {
     out.nontrivial = matches!(ff, 9 | 10 | 15 | 16) || n > 1;
     out.fingerprint = fnv64(&payload) ^ fmt0 as u64;
     out.labels.push(if fmt0 { "format:0".into() } else { "format:2".into() });
+    if last_id_ff {
+        out.labels.push("last_word_id_ff".into());
+    }
     if !fmt0 {
         out.labels.push(format!("ff:{}", if ff <= 16 { ff.to_string() } else { ">16".into() }));
         out.labels.push(format!("size_mod10:{}", payload.len() % 10));
@@ -271,7 +281,7 @@ fn cli_view_case(t: &mut Tape, w: &Worker) -> CaseResult {
 pub fn build() -> Property {
     Property {
         id: "C12",
-        rule: "Data format {0,2} x word count 0..700 x trailing 0xFF run 0..40 (every residue mod 10 and mod 16 of the payload size occurs by construction); words carry their index and never the id 0xFF. \
+        rule: "Data format {0,2} x word count 0..700 x trailing 0xFF run 0..40 (every residue mod 10 and mod 16 of the payload size occurs by construction); words carry their index and never the id 0xFF, except a last word with id 0xFF followed by at most 8 bytes of padding (run of 0xFF shorter than a word: still a word). \
                (1) `preprocess_payload` vs an independent reference chunker: number, order and bytes of words, no word made of padding, run > 15 rejected, run <= 15 accepted; \
                (2) `do_payload_checks` on IHW TDH data* TDT with one faulty word at a generated index: reported exactly once (E991), at its own offset, with its own bytes; \
                (3) the triple (packet ending in TDT done=0 ; over-padded packet ; packet starting IHW + TDH cont=0|1), in-process and through the CLI: exactly one `Payload error following RDH` at the RDH offset, \
